@@ -59,6 +59,21 @@ func (d NoReturning) Initialize(db *gorm.DB) error {
 	return nil
 }
 
+// SavePoint / RollbackTo are forwarded (embedding the interface would hide them).
+func (d NoReturning) SavePoint(tx *gorm.DB, name string) error {
+	if sp, ok := d.Dialector.(gorm.SavePointerDialectorInterface); ok {
+		return sp.SavePoint(tx, name)
+	}
+	return gorm.ErrUnsupportedDriver
+}
+
+func (d NoReturning) RollbackTo(tx *gorm.DB, name string) error {
+	if sp, ok := d.Dialector.(gorm.SavePointerDialectorInterface); ok {
+		return sp.RollbackTo(tx, name)
+	}
+	return gorm.ErrUnsupportedDriver
+}
+
 // Open opens gorm on a fresh in-memory SQLite database behind a recorder.
 // cfg may be nil; Logger and NowFunc are always owned by the harness.
 func Open(cfg *gorm.Config) *Env {
